@@ -199,6 +199,52 @@ def chunk_cases(_):
     return n_cases, bad
 
 
+def value_cases(_):
+    """The specification's elements and outputs are abstract: here they are realised as the values a map may carry -
+    None, falsy values, exception OBJECTS returned (not raised) by f, containers - for every thread count / chunk size."""
+    from taskchain.utils import iter as tci
+    from taskchain.utils import threading as tct
+    from taskchain.utils.iter import chunked
+
+    err = ValueError('an exception object used as a value')
+    menu = [None, 0, False, '', (), 1, 'x', err, [None], {'k': None}]
+    bad = []
+    n_cases = 0
+
+    def same(a, b):
+        return len(a) == len(b) and all((x is y) or (type(x) is type(y) and x == y) for x, y in zip(a, b))
+    for n in (0, 1, 2, 3, 5, 7):
+        for rot in range(3):
+            xs = [menu[(i * 3 + rot) % len(menu)] for i in range(n)]
+            for size in (1, 2, 3, 4):
+                n_cases += 1
+                got = [list(c) for c in chunked(list(xs), size)]
+                want = [xs[i:i + size] for i in range(0, n, size)]
+                if len(got) != len(want) or not all(same(g, w) for g, w in zip(got, want)):
+                    bad.append(('chunked-values', f'chunked({xs!r}, {size}) = {got!r}, expected {want!r}'))
+            outs = {id(x): menu[(i + 4) % len(menu)] for i, x in enumerate(menu)}
+            for fname, f in (('identity', lambda x: x), ('menu', lambda x: outs[id(x)])):
+                want = [f(x) for x in xs]
+                for threads in (1, 2, 4):
+                    for cs in (1, 2, 100):
+                        n_cases += 1
+                        try:
+                            got = tct.parallel_map(f, list(xs), threads=threads, sort=True, use_tqdm=False, chunksize=cs)
+                        except Exception as e:  # noqa
+                            got = e
+                        if isinstance(got, Exception) or not same(list(got), want):
+                            bad.append(('values', f'threading.parallel_map({fname}, {xs!r}, threads={threads}, chunksize={cs}) '
+                                                  f'gave {got!r}, map gives {want!r}'))
+                    n_cases += 1
+                    try:
+                        got = tci.parallel_map(f, list(xs), threads=threads)
+                    except Exception as e:  # noqa
+                        got = e
+                    if isinstance(got, Exception) or not same(list(got), want):
+                        bad.append(('values', f'iter.parallel_map({fname}, {xs!r}, threads={threads}) gave {got!r}, map gives {want!r}'))
+    return n_cases, bad
+
+
 def run(ctx):
     quick = ctx.quick()
     ns = [0, 1, 2, 3, 4] if quick else [0, 1, 2, 3, 4, 5]
@@ -240,6 +286,14 @@ def run(ctx):
     ctx.traces += ncase
     for cls, text in bad:
         ctx.report(cls, text)
+    ncase, bad = run_forked(value_cases, None)
+    ctx.traces += ncase
+    ctx.extra['value_realisations'] = ncase
+    seen = set()
+    for cls, text in bad:
+        if (cls, text[:60]) not in seen:
+            seen.add((cls, text[:60]))
+            ctx.report(cls, text)
     for j in jobs[:2] + jobs[-2:]:
         ctx.sample({'function': j[1], 'par': j[2], 'schedule': j[3]})
     ctx.assumptions += ['completion order is dictated by gating the mapped function and observing Future.set_result']
